@@ -52,15 +52,24 @@ func c09Scenarios(thorough bool) []convScn {
 		{fr1, fr2, plain1},
 		{fr1, plain1, frE},
 		{esc2, esc1, plain1},
+		// two coalesced reads in a row (the second again takes the buffered path) and split frames
+		{plain1, plain2, plain3, tmsg{ID: 0x0002, Phone: p, Serial: 4}},
+		{plain2, esc1, plain1, plain3, tmsg{ID: 0x0200, Phone: p, Serial: 6}},
+		{fr1, fr2, plain1, plain2},
+		// short + long in one read, then a short coalesced read that fits into what is left of the first read's buffer
+		{plain1, plain3, tmsg{ID: 0x0002, Phone: p, Serial: 7}, tmsg{ID: 0x0002, Phone: p, Serial: 8}},
+		{plain1, esc2, tmsg{ID: 0x0002, Phone: p, Serial: 9}, tmsg{ID: 0x0002, Phone: p, Serial: 10}, plain1},
 	}
 	for i, h := range hist {
-		for _, mode := range []string{"one-per-read", "pairs", "close"} {
+		for _, mode := range []string{"one-per-read", "pairs", "close", "split"} {
 			s := convScn{Name: fmt.Sprintf("stab:%d:%s", i, mode), Conns: [][]tmsg{h}, Stab: true}
 			switch mode {
 			case "pairs":
 				s.Pairs = true
 			case "close":
 				s.Close = true
+			case "split":
+				s.Split = true
 			}
 			out = append(out, s)
 		}
@@ -73,7 +82,7 @@ func init() {
 		ID:         "C09",
 		Level:      "model_checking",
 		SingleProc: true,
-		Rule: "one connection, 8 histories of 2..3 frames from {escape-free, escaped, fragmented pair (reassembled), fragmented+ordinary interleaved}, delivered one frame per read, two per read, and one per read followed by the terminal closing; " +
+		Rule: "one connection, 13 histories of 2..5 frames from {escape-free, escaped, fragmented pair (reassembled), fragmented+ordinary interleaved}, delivered one frame per read, two per read, every frame split in the middle (each read = tail of one frame + head of the next), and one per read followed by the terminal closing; " +
 			"recording handlers snapshot every delivered Message inside OnReadExecutionEvent and keep the pointer; ALL schedules of reader/writer/terminal within the deviation bound (2 quick, 3 thorough) are executed; " +
 			"at every later callback and at quiescence each kept Message is compared with its snapshot, and every reply on the socket with the reference reply of the snapshotted request. Non-trivial = schedule with >=1 deviation",
 		Assumptions: []string{"scheduling points at channel/socket/once operations; unsynchronised accesses are C18's subject"},
